@@ -283,6 +283,11 @@ def C19(tier, seed):
     progs = ['%s_%s' % (b, p) for b in bases for p in catalog.POLICIES]
     oracle_units(chk, progs, be, 'C19', proj=('G', 'A', 'E', 'X', 'F'), check_result=False, probe='ids_root',
                  opts={'probe': 'ids_root', 'defines': ['VF_PROBE_ON 1']}, bfs_depth=5)
+    # (a') the same with the ids of EVERY machine level (root and submachine) on the nested machine H2
+    hp = ['H2_%s' % p for p in (catalog.POLICIES if tier == 'thorough' else ['after_entry', 'after_transition_action'])]
+    oracle_units(chk, hp, [0, 3] + ([2] if tier == 'thorough' else []), 'C19', proj=('G', 'A', 'E', 'X', 'F'), check_result=False, probe='ids_all',
+                 opts={'probe': 'ids_all', 'defines': ['VF_PROBE_ON 1']}, bfs_depth=5, max_confs=(40 if tier == 'thorough' else 10),
+                 prog_mod=lambda prog: setattr(prog, 'name', prog.name + '_levels'))
     # (b) outside transitions the policies are indistinguishable: product harness, same back-end, two policies
     def variant(prog, cfg):
         for m in prog.machines: m.policy = cfg[1]
